@@ -70,7 +70,9 @@ func (n *noopStore) ReleaseLease(ctx context.Context, lease Lease) error {
 }
 
 func (n *noopStore) LoadOffset(ctx context.Context, topic string, partition int32) (OffsetState, error) {
-	return OffsetState{Topic: topic, Partition: partition, Offset: 0}, nil
+	// Nothing is ever committed: report -1 so that the record at offset 0 is
+	// not treated as already processed.
+	return OffsetState{Topic: topic, Partition: partition, Offset: -1}, nil
 }
 
 func (n *noopStore) CommitOffset(ctx context.Context, state OffsetState) error {
